@@ -8,6 +8,9 @@ from vlib import *
 ASSUME = [
     "cryptography is ideal in the model (DH, AEAD bound to chaining key + handshake hash, unforgeable signatures); the "
     "strength of snow / x25519 / ed25519 is assumed, not checked",
+    "histories: up to three handshakes against the same process state (same identities; the honest peer H keeps its static "
+    "DH key, as rust-libp2p / go-libp2p do, so its payload can be observed and replayed); the verdict of each handshake is "
+    "judged on its own scenario only (history independence)",
     "one man-in-the-middle move per handshake (corrupt one byte of a field, truncate, extend, substitute from another "
     "session, replay, drop) or one rogue endpoint; multi-byte corruptions are covered only through truncate/extend/substitute",
     "the dialer finishes before the third message travels: an alteration of message 3 must fail the listener only",
@@ -25,7 +28,7 @@ ASSUME = [
 
 CHUNKS = {"whole", "byte1", "fields", "random"}
 PVS = {"asR", "noKey", "noSig", "sigByOther", "sigOverOtherStatic", "sigNoPrefix", "stolen", "unknownType", "garbageSig",
-       "extraField", "noncanonKey", "weakKey"}
+       "extraField", "noncanonKey", "weakKey"}   # replayH / replayHBadSig occur in the histories only
 CONSTS = {"Chunks": CHUNKS, "RoguePayloads": PVS}
 MC_LINES = ["SPECIFICATION Spec", "INVARIANTS Refines Auth NoHang Agreement", "CHECK_DEADLOCK FALSE"]
 GEN_LINES = ["SPECIFICATION Spec", "ACTION_CONSTRAINT Emit", "CHECK_DEADLOCK FALSE"]
@@ -37,6 +40,10 @@ def classify(seg, idx):
     sc = ev["sc"]
     if sc["peer"] == "rogue" and sc["pv"] == "noncanonKey" and ev["outcome"] == "ok" and ev["peer"] == "X":
         return "noncanonical-identity-key-foreign-peer-id"
+    if sc["peer"] == "rogue" and sc["pv"] == "replayH" and ev["outcome"] == "ok":
+        c = ev.get("conc", {})
+        return "replayed-payload-accepted%s%s" % ("-after-honest-handshake" if c.get("step", 1) > 1 else "",
+                                                  "-via-negotiate" if c.get("route") == "negotiate" else "")
     what = sc["pv"] if sc["peer"] == "rogue" else "%s-m%s-%s" % (sc["mitm"]["move"], sc["mitm"]["msg"], sc["mitm"]["field"])
     if sc["dialed"] != "none":
         what = "dialed-%s-%s-via-%s" % ("same-key" if sc["dialed"] == "B" else "other-key", sc["dialedForm"], ev.get("conc", {}).get("via", "?"))
@@ -79,7 +86,9 @@ def check(ctx):
     need = [] if any(v["sig"] not in known for v in violations) else ["ok_pass", "ok_asR", "err_stolen", "err_sigByOther", "err_sigOverOtherStatic", "err_sigNoPrefix", "err_noSig", "err_noKey",
             "err_garbageSig", "err_unknownType", "err_corrupt", "err_substitute", "err_drop", "err_replay", "err_extend",
             "err_truncadj", "err_truncraw"] + ["%s_%s_%s" % (o, via, c) for via in ("tcp", "negotiate", "ws", "wsnegotiate")
-            for o, c in (("ok", "B_inline"), ("err", "C_inline"), ("err", "B_sha256"), ("err", "C_sha256"), ("ok", "listener"))]
+            for o, c in (("ok", "B_inline"), ("err", "C_inline"), ("err", "B_sha256"), ("err", "C_sha256"), ("ok", "listener"))] + [
+            "ok_hist_snowfixed_mem", "ok_hist_libp2pfixed_mem", "err_hist_replayH_mem", "err_hist_replayHBadSig_mem", "err_hist_Hbad_mem",
+            "ok_hist_asR_mem", "ok_hist_snowfixed_negotiate", "err_hist_replayH_negotiate", "err_hist_replayHBadSig_negotiate"]
     for k in need:
         if not outc.get(k):
             raise ToolError("coverage hole: no real run with outcome class %s" % k)
@@ -125,6 +134,10 @@ MUTANTS = [
     ("dialed peer not compared", "IF side = \"d\" /\\ sc.dialed # \"none\" /\\ (sc.dialed # peer \\/ sc.dialedForm # \"inline\") THEN Fail(ep)", "IF FALSE THEN Fail(ep)"),
     ("dialed peer compared only when the multihash forms agree", "(sc.dialed # peer \\/ sc.dialedForm # \"inline\") THEN Fail(ep)", "(sc.dialedForm = \"inline\" /\\ sc.dialed # peer) THEN Fail(ep)"),
     ("peer id derived from the received key bytes", "ELSE LET peer == p.key.n IN", "ELSE LET peer == IF p.key.canon THEN p.key.n ELSE \"X\" IN"),
+    ("process-wide memo of verified (peer id, signature) pairs",
+     ["MemoAfter(memo, ep) == memo", "ELSE IF ~(p.sig.by = p.key.n /\\ p.sig.over = <<\"prefix\", ep.rs>>) THEN Fail(ep)"],
+     ["MemoAfter(memo, ep) == IF ep.st = \"ok\" THEN memo \\cup {<<ep.peer, ep.pl.sig>>} ELSE memo",
+      "ELSE IF ~(<<p.key.n, p.sig>> \\in memo) /\\ ~(p.sig.by = p.key.n /\\ p.sig.over = <<\"prefix\", ep.rs>>) THEN Fail(ep)"]),
     ("handshake hash not bound into the AEAD", "ct.t = \"enc\" /\\ ct.ck = ss.ck /\\ ct.h = ss.h", "ct.t = \"enc\" /\\ ct.ck = ss.ck"),
 ]
 
@@ -134,11 +147,14 @@ def selftest(ctx):
     src = open(os.path.join(SPEC, "NoiseHS.tla")).read()
     cfg = write_cfg(ctx, "mut.cfg", CONSTS, MC_LINES)
     for i, (name, old, new) in enumerate(MUTANTS):
-        if old not in src:
-            raise ToolError("mutant pattern not found: %s" % name)
         d = ctx.path("mut%d" % i)
         os.makedirs(d)
-        open(os.path.join(d, "NoiseHS.tla"), "w").write(src.replace(old, new, 1))
+        text = src
+        for o, n in ([(old, new)] if isinstance(old, str) else zip(old, new)):
+            if o not in text:
+                raise ToolError("mutant pattern not found: %s" % name)
+            text = text.replace(o, n, 1)
+        open(os.path.join(d, "NoiseHS.tla"), "w").write(text)
         shutil.copy(os.path.join(SPEC, "NoiseHSMC.tla"), d)
         rc, out = run(["tlc", "-workers", "2", "-metadir", ctx.metadir(), "-cleanup", "-noGenerateSpecTE", "-config", cfg,
                        os.path.join(d, "NoiseHSMC.tla")], timeout=300, cwd=d, env={"JAVA_TOOL_OPTIONS": "-Xss512m"})
@@ -167,6 +183,7 @@ def selftest(ctx):
         return r == i + 1
 
     ok &= corrupt(lambda e: e["outcome"] == "err" and e["sc"]["peer"] == "rogue", lambda e: e.update(outcome="ok", peer="R"), "forged payload accepted")
+    ok &= corrupt(lambda e: e["sc"]["pv"] == "replayH" and e["conc"].get("step", 1) > 1, lambda e: e.update(outcome="ok", peer="B" if e["role"] == "dialer" else "A"), "replayed payload accepted after an honest handshake")
     ok &= corrupt(lambda e: e["outcome"] == "err" and e["sc"]["mitm"]["msg"] in (1, 2), lambda e: e.update(outcome="ok", peer="B" if e["role"] == "dialer" else "A"), "tampered handshake accepted")
     ok &= corrupt(lambda e: e["outcome"] == "ok" and e["peer"] == "B", lambda e: e.update(peer="R"), "wrong peer id reported")
     ok &= corrupt(lambda e: e["outcome"] == "ok" and e["sc"]["mitm"]["msg"] == 0 and e["sc"]["peer"] == "honest", lambda e: e.update(outcome="err", peer=""), "honest handshake failed")
